@@ -18,6 +18,10 @@ Item    (script order matters):
   ('bid', ctx, control, [targets], period|None)
   ('fiat', ctx, kind, target)               kind in ready,start,run,stop,abort
   ('put', ctx, value, path) / ('inc', ctx, path, value) / ('copy', ctx, src, dst)
+  ('auxclone', moot name, tag | 'mine')     aux <moot> as <tag>          (clone of a moot framer)
+  ('rear', ctx, moot name, frame)           rear <moot> as mine be aux in frame <frame>
+  ('raze', ctx, 'all'|'first'|'last', frame|None)
+Paths may end in ' of framer', ' of framer main', ' of frame', ' of frame main' (relative addressing).
 Need:
   ('cmp', path, op, goal, tol|None, neg)    direct goal (python value)
   ('cmpi', path, op, goalpath, tol|None, neg)
@@ -119,6 +123,12 @@ def emit_item(it, ind):
         out.append(ind + "aux %s" % it[1])
     elif k == "auxif":
         out.append(ind + "aux %s if %s" % (it[1], emit_needs(it[2])))
+    elif k == "auxclone":
+        out.append(ind + "aux %s as %s" % (it[1], it[2]))
+    elif k == "rear":
+        ctxline(it[1], "rear %s as mine be aux in frame %s" % (it[2], it[3]))
+    elif k == "raze":
+        ctxline(it[1], "raze %s" % it[2] + ("" if it[3] is None else " in frame %s" % it[3]))
     elif k == "done":
         ctxline(it[1], "done" + ("" if not it[2] else " " + " ".join(it[2])))
     elif k == "bid":
@@ -248,3 +258,110 @@ def next_of(fm):
 
 def first_of(fm):
     return fm.get("first") or (fm["frames"][0]["name"] if fm["frames"] else None)
+
+
+# ----------------------------------------------------------------------------- relative paths and clones
+
+def resolve_rel(path, fm, fr, mainfm, mainfr):
+    """Documented relative addressing: `p of framer` -> framer.<this framer>.p ; `p of framer main` ->
+    framer.<framer of the main frame>.p ; `p of frame` -> framer.<this framer>.frame.<this frame>.p ;
+    `p of frame main` -> framer.<main framer>.frame.<main frame>.p ; anything else is absolute."""
+    if " of " not in path:
+        return path
+    p, rel = path.split(" of ", 1)
+    rel = " ".join(rel.split())
+    if rel == "framer":
+        return "framer.%s.%s" % (fm, p)
+    if rel == "framer main":
+        return "framer.%s.%s" % (mainfm, p)
+    if rel == "frame":
+        return "framer.%s.frame.%s.%s" % (fm, fr, p)
+    if rel == "frame main":
+        return "framer.%s.frame.%s.%s" % (mainfm, mainfr, p)
+    raise ValueError("unsupported relation %r" % path)
+
+
+def _subst_need(n, ctx):
+    if n[0] in ("cmp", "bool", "updated", "changed"):
+        return (n[0], resolve_rel(n[1], *ctx)) + tuple(n[2:])
+    if n[0] == "cmpi":
+        return (n[0], resolve_rel(n[1], *ctx), n[2], resolve_rel(n[3], *ctx)) + tuple(n[4:])
+    return n
+
+
+def _subst_item(it, ctx):
+    k = it[0]
+    if k == "go":
+        return ("go", it[1], [_subst_need(n, ctx) for n in it[2]])
+    if k == "let":
+        return ("let", [_subst_need(n, ctx) for n in it[1]])
+    if k == "auxif":
+        return ("auxif", it[1], [_subst_need(n, ctx) for n in it[2]])
+    if k == "put":
+        return ("put", it[1], it[2], resolve_rel(it[3], *ctx))
+    if k == "inc":
+        return ("inc", it[1], resolve_rel(it[2], *ctx), it[3])
+    if k == "copy":
+        return ("copy", it[1], resolve_rel(it[2], *ctx), resolve_rel(it[3], *ctx))
+    return it
+
+
+def instantiate(prog_moots, fm, name, main=None, out=None):
+    """Concrete copy of framer AST `fm` under `name` (relative paths resolved, clone items replaced by
+    plain `aux <clone name>` of freshly instantiated clones).  main = (main framer name, main frame name)
+    for clones.  Returns the list of concrete framers, this one first, nested clones after it in
+    resolution order."""
+    out = [] if out is None else out
+    me = dict(fm)
+    me["name"] = name
+    if main is not None:
+        me["schedule"] = "aux"
+        me["original"] = False
+        me["fixed_main"] = main
+    out.append(me)
+    frames = []
+    counters = {}
+    pending = []
+    for fr in fm["frames"]:
+        ctx = (name, fr["name"], main[0] if main else None, main[1] if main else None)
+        items = []
+        for it in fr["items"]:
+            if it[0] == "auxclone":
+                orig, tag = it[1], it[2]
+                if tag == "mine":
+                    counters[orig] = counters.get(orig, 0) + 1
+                    tag = "%s%d" % (orig, counters[orig])
+                cname = "%s_%s" % (name, tag)
+                items.append(("aux", cname))
+                pending.append((orig, cname, (name, fr["name"]), it[2] == "mine"))
+                me.setdefault("clone_tags", []).append(tag)
+            else:
+                items.append(_subst_item(it, ctx))
+        f2 = dict(fr)
+        f2["items"] = items
+        frames.append(f2)
+    me["frames"] = frames
+    for orig, cname, mn, insular in pending:
+        sub = instantiate(prog_moots, prog_moots[orig], cname, mn, out=[])
+        sub[0]["insular"] = insular
+        out.extend(sub)
+    return out
+
+
+def desugar(prog):
+    """Program without moots / clone items: every clone becomes an ordinary auxiliary framer named
+    <parent name>_<tag> with a fixed main frame (the metamorphic reading of C12: a clone behaves like its
+    original declared as an ordinary auxiliary).  Moot ASTs are kept under 'moots' for rear."""
+    moots = {fm["name"]: fm for fm in prog["framers"] if fm.get("schedule") == "moot"}
+    framers = []
+    clones = []
+    for fm in prog["framers"]:
+        if fm.get("schedule") == "moot":
+            continue
+        got = instantiate(moots, fm, fm["name"])
+        framers.append(got[0])
+        clones.extend(got[1:])
+    out = dict(prog)
+    out["framers"] = framers + clones
+    out["moots"] = moots
+    return out
